@@ -201,10 +201,10 @@ _c06_quick = [
     run("kfifo", "kb", c=0, r=2, opt={"T": 1, "m": 8, "k": 3, "segs": 2, "prefill": 0}, weight=0.5), run("kfifo", "kf_hp", c=0, r=1, opt={"T": 1, "m": 8, "k": 3, "prefill": 0}, weight=0.5),
     # three segments, three threads x two operations: reaches known finding F-C06-4 (hole left by a withdrawn tentative insert)
     run("kfifo", "kb", c=2, opt={"k": 1, "segs": 3, "T": 3, "m": 2, "prefill": 0}, weight=3),
-    run("kfifo", "kb_boundary", c=0, horizon=8000000, wall=120, opt={"segs": 65535, "fill": 65535, "ops": 70000}),
-    run("kfifo", "kb_boundary", c=0, horizon=8000000, wall=120, opt={"segs": 65536, "fill": 65536, "ops": 70000}),
-    run("kfifo", "kb_boundary", c=0, horizon=8000000, wall=120, opt={"segs": 65537, "fill": 65537, "ops": 70000}),
-    run("kfifo", "kb_boundary", c=0, horizon=8000000, wall=120, opt={"segs": 70000, "fill": 3, "ops": 150000}),
+    run("kfifo", "kb_boundary", c=0, horizon=16000000, wall=240, opt={"segs": 65535, "fill": 65535, "ops": 70000}),
+    run("kfifo", "kb_boundary", c=0, horizon=16000000, wall=240, opt={"segs": 65536, "fill": 65536, "ops": 70000}),
+    run("kfifo", "kb_boundary", c=0, horizon=16000000, wall=240, opt={"segs": 65537, "fill": 65537, "ops": 70000}),
+    run("kfifo", "kb_boundary", c=0, horizon=16000000, wall=240, opt={"segs": 70000, "fill": 3, "ops": 150000}),
 ]
 _c06_thorough = [
     run("kfifo", "kb", c=3, r=1, opt={"k": 2, "segs": 2, "prefill": 1}, weight=8), run("kfifo", "kb", c=2, r=2, opt={"k": 2, "segs": 2}, weight=3),
@@ -212,9 +212,9 @@ _c06_thorough = [
     run("kfifo", "kb", c=2, r=1, opt={"k": 2, "segs": 3}), run("kfifo", "kb", c=2, r=1, opt={"k": 3, "segs": 2}),
     run("kfifo", "kb", c=2, r=1, opt={"k": 2, "segs": 2, "T": 3, "m": 1}), run("kfifo", "kb", c=0, r=3, opt={"T": 1, "m": 8, "k": 2, "segs": 2, "prefill": 0}),
     run("kfifo", "kb", c=0, r=2, opt={"T": 1, "m": 8, "k": 3, "segs": 2, "prefill": 0}),
-    run("kfifo", "kb_boundary", c=0, horizon=8000000, wall=120, opt={"segs": 65537, "fill": 65537, "ops": 70000}),
-    run("kfifo", "kb_boundary", c=0, horizon=8000000, wall=120, opt={"k": 2, "segs": 32769, "fill": 65538, "ops": 70000}),
-    run("kfifo", "kb_boundary", c=0, horizon=16000000, wall=240, opt={"segs": 131073, "fill": 131073, "ops": 140000}),
+    run("kfifo", "kb_boundary", c=0, horizon=16000000, wall=240, opt={"segs": 65537, "fill": 65537, "ops": 70000}),
+    run("kfifo", "kb_boundary", c=0, horizon=16000000, wall=240, opt={"k": 2, "segs": 32769, "fill": 65538, "ops": 70000}),
+    run("kfifo", "kb_boundary", c=0, horizon=32000000, wall=480, opt={"segs": 131073, "fill": 131073, "ops": 140000}),
 ] + [run("kfifo", "kf_" + r, c=2, r=1, opt={"k": 2}, weight=6) for r in ["hp", "hpd", "he", "qsbr", "ebr", "nebr", "debra"]] + [
     run("kfifo", "kf_stamp", c=1, r=1, opt={"k": 2}, weight=2), run("kfifo", "kf_hp", c=3, opt={"k": 1, "prefill": 0}, weight=6),
     run("kfifo", "kf_hp", c=0, r=3, opt={"T": 1, "m": 8, "k": 2, "prefill": 0}),
@@ -639,7 +639,7 @@ _c16_quick = \
     [run("reclaim", "proto_" + r, c=1, solo=_SOLO, opt={"ops": 0xee}) for r in ["hp", "he", "qsbr", "ebr", "debra", "lfrc"]] + [run("reclaim", "proto_stamp", c=1, solo=_SOLO, opt={"ops": 0x62})] + \
     [run("bounded", "vyukov", c=2, solo=_SOLO, opt={"cap": 2}), run("bounded", "nikolaev", c=2, solo=_SOLO, opt={"cap": 2}),
      run("kfifo", "kb", c=2, r=0, solo=_SOLO, opt={"k": 2, "segs": 2, "prefill": 1}), run("kfifo", "kf_hp", c=1, r=1, solo=_SOLO, opt={"k": 2}),
-     run("kfifo", "kb_boundary", c=0, horizon=8000000, wall=120, solo=_SOLO, opt={"segs": 65537, "fill": 65537, "ops": 70000}),
+     run("kfifo", "kb_boundary", c=0, horizon=16000000, wall=240, solo=_SOLO, opt={"segs": 65537, "fill": 65537, "ops": 70000}),
      run("deque", "grow2", c=2, solo=_SOLO), run("deque", "fixed2", c=2, solo=_SOLO),
      run("lr_seqlock", "left_right", c=3, solo=_SOLO), run("lr_seqlock", "seqlock_b16_s2", c=3, solo=_SOLO), run("lr_seqlock", "seqlock_b16_s3", c=3, solo=_SOLO),
      run("hm", "set_hp", c=2, solo=_SOLO, opt={"ops": 0x7, "keys": 1, "prefill": 1}), run("hm", "map_b1_lfrc", c=2, solo=_SOLO, opt={"ops": 0x23, "keys": 1, "prefill": 1}), run("hm", "iset_hp", c=1, solo=_SOLO, opt={"keys": 2}),
@@ -653,7 +653,7 @@ _c16_thorough = \
     [run("bounded", "vyukov", c=3, solo=_SOLO, opt={"cap": 2}, weight=4), run("bounded", "nikolaev", c=3, solo=_SOLO, opt={"cap": 2}, weight=4),
      run("kfifo", "kb", c=3, r=1, solo=_SOLO, opt={"k": 2, "segs": 2, "prefill": 1}, weight=6), run("kfifo", "kf_hp", c=2, r=1, solo=_SOLO, opt={"k": 2}, weight=6),
      run("kfifo", "kf_ebr", c=2, r=1, solo=_SOLO, opt={"k": 2}, weight=6),
-     run("kfifo", "kb_boundary", c=0, horizon=8000000, wall=120, solo=_SOLO, opt={"segs": 65537, "fill": 65537, "ops": 70000}),
+     run("kfifo", "kb_boundary", c=0, horizon=16000000, wall=240, solo=_SOLO, opt={"segs": 65537, "fill": 65537, "ops": 70000}),
      run("deque", "grow2", c=3, solo=_SOLO, weight=4), run("deque", "fixed2", c=3, solo=_SOLO, weight=3), run("deque", "grow2", c=2, solo=_SOLO, opt={"thieves": 2, "s": 1}, weight=3),
      run("lr_seqlock", "left_right", c=4, solo=_SOLO, weight=2), run("lr_seqlock", "seqlock_b16_s2", c=4, solo=_SOLO, weight=2), run("lr_seqlock", "seqlock_b16_s3", c=4, solo=_SOLO, weight=2),
      run("hm", "set_hp", c=2, solo=_SOLO, opt={"ops": 0x17, "keys": 2, "prefill": 1}, weight=4), run("hm", "map_b1_lfrc", c=2, solo=_SOLO, opt={"ops": 0x23, "keys": 2, "prefill": 1}, weight=4),
